@@ -3,7 +3,6 @@ import NmVerif.Containers.Spec
 import NmVerif.Containers.Vector
 import NmVerif.Containers.VectorProofs
 import NmVerif.Containers.VectorLedger
-import NmVerif.Containers.VectorMarked
 import NmVerif.Containers.StaticVector
 import NmVerif.Containers.StaticVectorProofs
 import NmVerif.Containers.SmallVector
@@ -35,153 +34,118 @@ theorem copy_source_untouched (I : Impl σ α) (w : World σ) (d s : Nat) (hds :
   rw [run_frame I _ h s (fun op ho => by rw [hh op ho]; exact hds)]
   exact step_frame I w _ s (by simpa [Op.target] using hds)
 
-/-! ### utl::vector -/
+/-! ### utl::vector (after the `fix:` commits: value-initialising resize / sized ctor, unconditional free,
+       push_back copying its argument first) -/
 
-/-- `utl::vector` holds exactly what `std::vector` holds after every history that constructs sized vectors
-    only with N = 0, resizes only down to at most the current size and never pushes an aliasing argument
-    (`vecOk`); liveness of every slot agrees too (`WRel`/`ORel`). -/
-theorem vector_refines_list (zero : α) (h : List (Op α))
-    (hok : AllOk (stdSpec zero) vecOk World.empty h) :
-    WRel RVec (run (vecImpl α) World.empty h) (run (stdSpec zero) World.empty h) :=
-  run_sim (vec_sim zero) h (wrel_empty _) hok
+/-- `utl::vector` holds exactly what `std::vector` holds — liveness of every slot, sizes, every element — after
+    EVERY history over the whole alphabet (sized construction, growing resizes and `push_back(x[i])` included). -/
+theorem vector_refines_list (zero : α) (h : List (Op α)) :
+    WRel RVec (run (vecImpl zero) World.empty h) (run (stdSpec zero) World.empty h) :=
+  run_sim (vec_sim zero) h (wrel_empty _) (allOk_of_forall _ _ h (fun _ _ _ => trivial) _)
 
 /-- the same, read off slot by slot: client-visible elements `0 … size-1` equal the list -/
-theorem vector_view_eq (zero : α) (h : List (Op α)) (hok : AllOk (stdSpec zero) vecOk World.empty h) (k : Nat) :
-    ((run (vecImpl α) World.empty h).objs k).map Vec.view
+theorem vector_view_eq (zero : α) (h : List (Op α)) (k : Nat) :
+    ((run (vecImpl zero) World.empty h).objs k).map Vec.view
       = ((run (stdSpec zero) World.empty h).objs k).map (fun l => l.map some) := by
-  have := vector_refines_list zero h hok k
-  cases h1 : (run (vecImpl α) World.empty h).objs k <;> cases h2 : (run (stdSpec zero) World.empty h).objs k <;>
+  have := vector_refines_list zero h k
+  cases h1 : (run (vecImpl zero) World.empty h).objs k <;> cases h2 : (run (stdSpec zero) World.empty h).objs k <;>
     simp only [h1, h2, ORel] at this ⊢
   · rfl
   · simp [this.2]
 
-/-- For EVERY history without aliasing pushes — sized construction and growing resizes included — `utl::vector`
-    differs from `std::vector` at most in elements that were created by value-initialisation and not written since:
-    with `m` the reference run that marks such elements (`markedSpec`, `none` = fresh), (1) liveness and sizes agree,
-    (2) every element the marked run holds as a definite value is exactly that value in the implementation,
-    (3) erasing the marks (`fresh ↦ zero`) gives the `std::vector` run. -/
-theorem vector_refines_list_up_to_fresh (zero : α) (h : List (Op α)) (hok : ∀ op ∈ h, ∀ s i, op ≠ .pushAt s i) :
-    WRel RMark (run (vecImpl α) World.empty h) (run (markedSpec (α := α)) World.empty h) ∧
-    WRel (fun l m => m = l.map (unmark zero)) (run (markedSpec (α := α)) World.empty h) (run (stdSpec zero) World.empty h) := by
-  refine ⟨run_sim mark_sim h (wrel_empty _) (allOk_of_forall _ _ h ?_ _),
-          run_sim (unmark_sim zero) h (wrel_empty _) (allOk_of_forall _ _ h (fun _ _ _ => trivial) _)⟩
-  intro op hop st
-  cases op <;> simp only [noAlias]
-  exact hok _ hop _ _ rfl
+def viewOf (w : World (Vec Int)) (k : Nat) : Option (List (Cell Int)) := (w.objs k).map Vec.view
+def specOf (w : World (List Int)) (k : Nat) : Option (List (Cell Int)) := (w.objs k).map (fun l => l.map some)
 
-example : AllOk (stdSpec (0 : Int)) vecOk World.empty
-    [.ctor 0, .push 0 7, .push 0 8, .ctorV 1 [1, 2, 3], .assign 1 0, .resize 0 1, .write 1 1 5, .copy 2 1, .destroy 0] := by
-  simp [AllOk, vecOk, step, stdSpec, World.empty, World.put, Op.target]
+/-- regression instances of the repaired defects: shrink-then-grow, `vector(3)`, `x.push_back(x[0])` on a full vector -/
+example :
+    viewOf (run (vecImpl (0 : Int)) World.empty [.ctor 0, .push 0 1, .push 0 2, .push 0 3, .resize 0 1, .resize 0 3]) 0
+      = some [some 1, some 0, some 0] ∧
+    viewOf (run (vecImpl (0 : Int)) World.empty [.ctorN 0 3]) 0 = some [some 0, some 0, some 0] ∧
+    viewOf (run (vecImpl (0 : Int)) World.empty [.ctor 0, .push 0 10, .push 0 11, .push 0 12, .push 0 13, .pushAt 0 0]) 0
+      = some [some 10, some 11, some 12, some 13, some 10] := by decide
 
-/-- `x = x` changes neither any object nor the ledger, in every state reachable without aliasing pushes -/
-theorem self_assign_noop (h : List (Op α)) (hok : ∀ op ∈ h, ledOk true op) (s : Nat) :
-    (∀ k, (step (vecImpl α) (run (vecImpl α) World.empty h) (.assign s s)).objs k
-            = (run (vecImpl α) World.empty h).objs k) ∧
-    (step (vecImpl α) (run (vecImpl α) World.empty h) (.assign s s)).led = (run (vecImpl α) World.empty h).led := by
-  have hw := run_linv (z := true) h (LInv.empty true) hok
-  generalize run (vecImpl α) World.empty h = w at hw ⊢
+/-- `x = x` changes neither any object nor the ledger, in every reachable state -/
+theorem self_assign_noop (zero : α) (h : List (Op α)) (s : Nat) :
+    (∀ k, (step (vecImpl zero) (run (vecImpl zero) World.empty h) (.assign s s)).objs k
+            = (run (vecImpl zero) World.empty h).objs k) ∧
+    (step (vecImpl zero) (run (vecImpl zero) World.empty h) (.assign s s)).led = (run (vecImpl zero) World.empty h).led := by
+  have hw := run_linv zero h LInv.empty
+  generalize run (vecImpl zero) World.empty h = w at hw ⊢
   simp only [step]
   cases hx : w.objs s with
   | none => simp
   | some x =>
-    simp only [if_true, vecImpl, Vec.assignSelf_eq x w.led (hw.objInv s x hx), World.put]
+    simp only [if_true, vecImpl, Vec.assignSelf_eq zero x w.led (hw.objInv s x hx), World.put]
     refine ⟨?_, trivial⟩
     intro k
     by_cases hk : k = s
     · simp [hk, hx]
     · simp [hk]
 
-/-- nothing is freed twice and only blocks that were handed out are freed -/
-theorem no_double_free (h : List (Op α)) (hok : ∀ op ∈ h, ledOk true op) :
-    (run (vecImpl α) World.empty h).led.freed.Nodup ∧
-    ∀ b ∈ (run (vecImpl α) World.empty h).led.freed, b < (run (vecImpl α) World.empty h).led.allocs :=
-  let hw := run_linv (z := true) h (LInv.empty true) hok
+/-- nothing is freed twice and only blocks that were handed out are freed — every history -/
+theorem no_double_free (zero : α) (h : List (Op α)) :
+    (run (vecImpl zero) World.empty h).led.freed.Nodup ∧
+    ∀ b ∈ (run (vecImpl zero) World.empty h).led.freed, b < (run (vecImpl zero) World.empty h).led.allocs :=
+  let hw := run_linv zero h LInv.empty
   ⟨hw.freedNodup, hw.freedLt⟩
 
-/-- no buffer cell outside the allocated block is touched, no freed block is read -/
-theorem no_oob (h : List (Op α)) (hok : ∀ op ∈ h, ledOk true op) :
-    (run (vecImpl α) World.empty h).led.events = [] :=
-  (run_linv (z := true) h (LInv.empty true) hok).noEvents
+/-- no buffer cell outside the allocated block is touched, no freed block is read — every history -/
+theorem no_oob (zero : α) (h : List (Op α)) :
+    (run (vecImpl zero) World.empty h).led.events = [] :=
+  (run_linv zero h LInv.empty).noEvents
 
 /-- live objects never share a block -/
-theorem no_shared_block (h : List (Op α)) (hok : ∀ op ∈ h, ledOk true op) (k1 k2 : Nat) (x1 x2 : Vec α) (p : Nat)
-    (hne : k1 ≠ k2) (h1 : (run (vecImpl α) World.empty h).objs k1 = some x1)
-    (h2 : (run (vecImpl α) World.empty h).objs k2 = some x2) (hp : x1.blk = some p) : x2.blk ≠ some p :=
-  (run_linv (z := true) h (LInv.empty true) hok).distinct k1 k2 x1 x2 p hne h1 h2 hp
+theorem no_shared_block (zero : α) (h : List (Op α)) (k1 k2 : Nat) (x1 x2 : Vec α) (p : Nat)
+    (hne : k1 ≠ k2) (h1 : (run (vecImpl zero) World.empty h).objs k1 = some x1)
+    (h2 : (run (vecImpl zero) World.empty h).objs k2 = some x2) (hp : x1.blk = some p) : x2.blk ≠ some p :=
+  (run_linv zero h LInv.empty).distinct k1 k2 x1 x2 p hne h1 h2 hp
 
-/-- after destroying all objects every block handed out has been freed exactly once — for histories
-    without `vector(0)` (and without aliasing pushes) -/
-theorem no_leak (h : List (Op α)) (hok : ∀ op ∈ h, ledOk false op)
-    (hdead : ∀ k, (run (vecImpl α) World.empty h).objs k = none) :
-    (run (vecImpl α) World.empty h).led.lost = [] ∧
-    (∀ b, b < (run (vecImpl α) World.empty h).led.allocs ↔ b ∈ (run (vecImpl α) World.empty h).led.freed) ∧
-    (run (vecImpl α) World.empty h).led.freed.Nodup ∧
-    (run (vecImpl α) World.empty h).led.freed.length = (run (vecImpl α) World.empty h).led.allocs := by
-  have hw := run_linv (z := false) h (LInv.empty false) hok
-  generalize run (vecImpl α) World.empty h = w at hw hdead ⊢
-  have hl := hw.lostNil rfl
+/-- after destroying all objects every block handed out has been freed exactly once — every history
+    (`vector(0)` included) -/
+theorem no_leak (zero : α) (h : List (Op α))
+    (hdead : ∀ k, (run (vecImpl zero) World.empty h).objs k = none) :
+    (run (vecImpl zero) World.empty h).led.lost = [] ∧
+    (∀ b, b < (run (vecImpl zero) World.empty h).led.allocs ↔ b ∈ (run (vecImpl zero) World.empty h).led.freed) ∧
+    (run (vecImpl zero) World.empty h).led.freed.Nodup ∧
+    (run (vecImpl zero) World.empty h).led.freed.length = (run (vecImpl zero) World.empty h).led.allocs := by
+  have hw := run_linv zero h LInv.empty
+  generalize run (vecImpl zero) World.empty h = w at hw hdead ⊢
   have hiff : ∀ b, b < w.led.allocs ↔ b ∈ w.led.freed := by
     intro b
     constructor
     · intro hb
-      rcases hw.accounted b hb with h | h | ⟨k, x, hx, _⟩
+      rcases hw.accounted b hb with h | ⟨k, x, hx, _⟩
       · exact h
-      · rw [hl] at h; cases h
       · rw [hdead k] at hx; cases hx
     · exact hw.freedLt b
-  refine ⟨hl, hiff, hw.freedNodup, ?_⟩
+  refine ⟨hw.lostNil, hiff, hw.freedNodup, ?_⟩
   have : w.led.freed.Perm (List.range w.led.allocs) :=
     (List.perm_ext_iff_of_nodup hw.freedNodup List.nodup_range).mpr (by intro a; simp [← hiff])
   simpa using this.length_eq
 
-example : (∀ op ∈ ([.ctor 0, .ctorN 1 3, .push 0 7, .copy 2 0, .resize 2 9, .assign 1 2, .destroy 0, .destroy 1, .destroy 2] : List (Op Int)),
-    ledOk false op) := by simp [ledOk]
-
-/-! #### defects of the unchanged tree (the model mirrors them; the reference does not) -/
-
-def viewOf (w : World (Vec Int)) (k : Nat) : Option (List (Cell Int)) := (w.objs k).map Vec.view
-def specOf (w : World (List Int)) (k : Nat) : Option (List (Cell Int)) := (w.objs k).map (fun l => l.map some)
-
-/-- shrink-then-grow keeps the stale values where `std::vector` value-initialises -/
-theorem vector_resize_stale_counterexample :
-    let h : List (Op Int) := [.ctor 0, .push 0 1, .push 0 2, .push 0 3, .resize 0 1, .resize 0 3]
-    viewOf (run (vecImpl Int) World.empty h) 0 = some [some 1, some 2, some 3] ∧
-    specOf (run (stdSpec 0) World.empty h) 0 = some [some 1, some 0, some 0] := by decide
-
-/-- `vector(3)` holds three indeterminate elements where `std::vector(3)` holds zeros -/
-theorem vector_sized_uninit_counterexample :
-    let h : List (Op Int) := [.ctorN 0 3]
-    viewOf (run (vecImpl Int) World.empty h) 0 = some [none, none, none] ∧
-    specOf (run (stdSpec 0) World.empty h) 0 = some [some 0, some 0, some 0] := by decide
-
-/-- `vector(0)` then destruction: the `malloc(0)` block is never freed -/
-theorem vector_zero_leak_counterexample :
-    let w := run (vecImpl Int) World.empty [.ctorN 0 0, .destroy 0]
-    w.led.allocs = 1 ∧ w.led.freed = [] ∧ w.led.lost = [0] := by decide
-
-/-- `x.push_back(x[0])` on a full vector reads the freed block -/
-theorem vector_alias_push_counterexample :
-    let h : List (Op Int) := [.ctor 0, .push 0 10, .push 0 11, .push 0 12, .push 0 13, .pushAt 0 0]
-    viewOf (run (vecImpl Int) World.empty h) 0 = some [some 10, some 11, some 12, some 13, none] ∧
-    (run (vecImpl Int) World.empty h).led.events = [.uaf] ∧
-    specOf (run (stdSpec 0) World.empty h) 0 = some [some 10, some 11, some 12, some 13, some 10] := by decide
+example : (run (vecImpl (0 : Int)) World.empty [.ctorN 0 0, .destroy 0]).led.freed = [0] := by decide
 
 /-! ### utl::static_vector, utl::array -/
 
 /-- `static_vector<T,c>` holds exactly what a vector bounded by capacity `c` holds (operations that do not fit are
-    refused, contents unchanged) after every history whose sized / variadic constructions fit the capacity and
-    whose resizes either do not exceed the current size or exceed the capacity (`svecOk`) -/
+    refused, contents unchanged) after EVERY history; the only guard is that a variadic construction has at most
+    `c` arguments (more do not compile) (`svecOk`) -/
 theorem staticVector_refines (c : Nat) (zero : α) (h : List (Op α))
-    (hok : AllOk (boundedSpec c zero) (svecOk c) World.empty h) :
+    (hok : ∀ op ∈ h, ∀ s vs, op = .ctorV s vs → vs.length ≤ c) :
     WRel (RSVec c) (run (svecImpl c zero) World.empty h) (run (boundedSpec c zero) World.empty h) :=
-  run_sim (svec_sim c zero) h (wrel_empty _) hok
+  run_sim (svec_sim c zero) h (wrel_empty _) (allOk_of_forall _ _ h (by
+    intro op hop st
+    cases op <;> simp only [svecOk]
+    exact hok _ hop _ _ rfl) _)
 
-example : AllOk (boundedSpec 4 (0 : Int)) (svecOk 4) World.empty
-    [.ctorN 0 3, .push 0 7, .push 0 8, .ctorV 1 [1, 2, 3], .assign 1 0, .resize 0 1, .resize 0 9, .pushAt 1 0, .write 1 1 5] := by
-  simp [AllOk, svecOk, step, boundedSpec, World.empty, World.put, Op.target, listResize]
+/-- regression instances: `static_vector<int,4>(7)` is refused, shrink-then-grow value-initialises -/
+example :
+    ((run (svecImpl 4 (0 : Int)) World.empty [.ctorN 0 7]).objs 0).map (fun x => (x.size, x.view)) = some (0, []) ∧
+    ((run (svecImpl 4 (0 : Int)) World.empty [.ctor 0, .push 0 1, .push 0 2, .push 0 3, .resize 0 1, .resize 0 3]).objs 0).map
+      (fun x => (x.size, x.view)) = some (3, [some 1, some 0, some 0]) := by decide
 
-/-- no element access leaves the fixed buffer and the heap is never used, for every history whose sized /
-    variadic constructions fit the capacity -/
+/-- no element access leaves the fixed buffer and the heap is never used — every history (variadic constructions
+    with at most `c` arguments) -/
 theorem staticVector_no_oob (c : Nat) (zero : α) (h : List (Op α)) (hok : ∀ op ∈ h, svecSafeOk c op) :
     (run (svecImpl c zero) World.empty h).led.Untouched ∧
     ∀ k x, (run (svecImpl c zero) World.empty h).objs k = some x → x.cells.length = c ∧ x.size ≤ c :=
@@ -191,48 +155,25 @@ theorem staticVector_no_oob (c : Nat) (zero : α) (h : List (Op α)) (hok : ∀ 
 /-- `utl::array<T,n>` is `std::array<T,n>` after every history (no excluded operation) -/
 theorem array_refines (n : Nat) (zero : α) (h : List (Op α)) :
     WRel (RArr n) (run (arrImpl n zero) World.empty h) (run (arraySpec n zero) World.empty h) :=
-  run_sim (arr_sim n zero) h (wrel_empty _) (by
-    generalize (World.empty : World (List α)) = v
-    induction h generalizing v with
-    | nil => trivial
-    | cons op h ih => exact ⟨trivial, ih _⟩)
-
-def sviewOf (w : World (SVec Int)) (k : Nat) : Option (Nat × List (Cell Int)) := (w.objs k).map (fun x => (x.size, x.view))
-def bviewOf (w : World (List Int)) (k : Nat) : Option (Nat × List (Cell Int)) := (w.objs k).map (fun l => (l.length, l.map some))
-
-/-- `static_vector<int,4>(7)` reports size 7 -/
-theorem staticVector_oversize_counterexample :
-    sviewOf (run (svecImpl 4 (0 : Int)) World.empty [.ctorN 0 7]) 0 = some (7, [some 0, some 0, some 0, some 0]) ∧
-    bviewOf (run (boundedSpec 4 (0 : Int)) World.empty [.ctorN 0 7]) 0 = some (0, []) ∧
-    (run (svecImpl 4 (0 : Int)) World.empty [.ctorN 0 7, .read 0 5]).led.events = [.oob] := by decide
-
-/-- shrink-then-grow re-exposes the old values -/
-theorem staticVector_stale_counterexample :
-    let h : List (Op Int) := [.ctor 0, .push 0 1, .push 0 2, .push 0 3, .resize 0 1, .resize 0 3]
-    sviewOf (run (svecImpl 4 (0 : Int)) World.empty h) 0 = some (3, [some 1, some 2, some 3]) ∧
-    bviewOf (run (boundedSpec 4 (0 : Int)) World.empty h) 0 = some (3, [some 1, some 0, some 0]) := by decide
+  run_sim (arr_sim n zero) h (wrel_empty _) (allOk_of_forall _ _ h (fun _ _ _ => trivial) _)
 
 /-! ### nmtools::small_vector over utl::either<utl::static_vector, utl::vector> -/
 
 /-- `small_vector<T,c>` holds exactly what `std::vector` holds — in static mode, in heap mode and across the switch at
-    `c` — after every history whose sized constructions stay below `c` (static, value-initialised), whose resizes
-    never exceed the current size and which does not push an aliasing argument (`smallOk`) -/
+    `c` — after every history over {ctor, ctorN, ctorV, copy, assign, push, resize, write, read, destroy}
+    (`push_back(x[i])` is not part of the alphabet for this kind) -/
 theorem smallVector_refines (c : Nat) (zero : α) (h : List (Op α))
-    (hok : AllOk (stdSpec zero) (smallOk c) World.empty h) :
+    (hok : ∀ op ∈ h, ∀ s i, op ≠ .pushAt s i) :
     WRel (RSmall c) (run (smallImpl c zero) World.empty h) (run (stdSpec zero) World.empty h) :=
-  run_sim (small_sim c zero) h (wrel_empty _) hok
-
-example : AllOk (stdSpec (0 : Int)) (smallOk 4) World.empty
-    [.ctorN 0 3, .push 0 7, .push 0 8, .push 0 9, .ctorV 1 [1, 2, 3, 4, 5, 6], .assign 1 0, .assign 0 0, .resize 0 2,
-     .copy 2 0, .write 2 1 5, .destroy 0] := by
-  simp [AllOk, smallOk, step, stdSpec, World.empty, World.put, Op.target, listResize]
+  run_sim (small_sim c zero) h (wrel_empty _) (allOk_of_forall _ _ h (by
+    intro op hop st
+    cases op <;> simp only [smallOk]
+    exact hok _ hop _ _ rfl) _)
 
 def smviewOf (w : World (Small Int)) (k : Nat) : Option (List (Cell Int)) := (w.objs k).map Small.view
 
-/-- `small_vector(5)` (heap mode) holds indeterminate elements -/
-theorem smallVector_uninit_counterexample :
-    smviewOf (run (smallImpl 4 (0 : Int)) World.empty [.ctorN 0 5]) 0 = some [none, none, none, none, none] ∧
-    specOf (run (stdSpec 0) World.empty [.ctorN 0 5]) 0 = some [some 0, some 0, some 0, some 0, some 0] := by decide
+example : smviewOf (run (smallImpl 4 (0 : Int)) World.empty [.ctorN 0 5, .resize 0 2, .resize 0 6]) 0
+    = some [some 0, some 0, some 0, some 0, some 0, some 0] := by decide
 
 /-- growing past DIM and destroying: two blocks are never freed (the temporary of the static→dynamic switch and the
     heap vector itself — `~either() {}`), and the heap vector was *assigned* into storage where none was constructed -/
